@@ -567,4 +567,6 @@ class C02(PropBase):
                 "inexact decimal arithmetic is outside the modelled domain (DESIGN.md F17, known finding)"]
 
 
+import deccontract  # noqa: E402
+deccontract.install(C02, ["add", "sum", "cmp"])
 PROP = C02()
